@@ -78,7 +78,7 @@ class Upper:
 
 
 def payload(side: str, i: int, rnd: random.Random) -> bytes:
-    n = rnd.choice([0, 1, 2, 5, 17, 60, 110])
+    n = rnd.choice([0, 1, 2, 5, 17, 60, 110, 129, 180])
     if rnd.random() < 0.3:
         fill = bytes(rnd.choice(R.RESERVED) for _ in range(n))
     else:
@@ -173,6 +173,9 @@ def run_case(case):
             # the host asks for a reset in mid-session (as Gateway.reset() does); whatever is still in
             # the pipe from the old session arrives between its RST and the RSTACK
             trace.append(("h_reset_request", clock()))
+            if len(case["reset_at"]) > 2 and case["reset_at"][2] == "failed":
+                # the reason for the reset: the host considers the link failed (an ERROR frame reached it)
+                proto.data_received(R.encode_error(0x51))
             proto.send_reset()
 
         def on_frame(idx):
@@ -463,7 +466,8 @@ def gen_cases(tier, seed):
         for at in range(1, 6):
             for delay in (0.0, 0.5, 1.7, 2.6):
                 cases.append(dict(nh=0, nn=2, nburst=1, reactive=2, ncp_reactive=1, vector=list(vec), window=1 + (at + hv) % 2,
-                                  chunking="whole", seed=seed, reset_at=[at, delay], traffic="midreset", gap=0.3))
+                                  chunking="whole", seed=seed, reset_at=[at, delay, "failed" if (at + hv // 2) % 2 else "healthy"],
+                                  traffic="midreset", gap=0.3))
     # long random runs
     rnd = random.Random(seed)
     nlong = 48 if tier == "quick" else 320
